@@ -411,6 +411,8 @@ class SymInterp:
             return self.ev(e.body) if self.truth(e.test) else self.ev(e.orelse)
         if isinstance(e, ast.Tuple):
             return tuple(self.ev(x) for x in e.elts)
+        if isinstance(e, ast.Dict) and all(isinstance(k, ast.Constant) and isinstance(k.value, str) for k in e.keys):
+            return {'dict': {k.value: self.strval(v) for k, v in zip(e.keys, e.values)}}
         if isinstance(e, (ast.BoolOp, ast.Compare)) or (isinstance(e, ast.UnaryOp) and isinstance(e.op, ast.Not)):
             return self.truth(e)
         if isinstance(e, ast.Call):
@@ -436,13 +438,15 @@ class SymInterp:
                 for atom in self.strval(f.value):
                     out.append(('c', atom[1].replace(a_s, b_s)) if atom[0] == 'c' else ('replace', a_s, b_s, [atom]))
                 return self.norm(out)
+            if f.attr == 'split' and not e.args and not e.keywords:
+                # the list of white-space separated words of a string: only ever joined again
+                return {'words': self.strval(f.value)}
             if f.attr == 'join' and len(e.args) == 1 and not e.keywords:
                 sep = self.strval(f.value)
                 need(all(x[0] == 'c' for x in sep), 'join() separator is not constant')
-                inner = e.args[0]
-                need(isinstance(inner, ast.Call) and isinstance(inner.func, ast.Attribute) and inner.func.attr == 'split'
-                     and not inner.args and not inner.keywords, 'join() argument is not x.split(): ' + ast.unparse(e))
-                x = self.strval(inner.func.value)
+                w = self.ev(e.args[0])
+                need(isinstance(w, dict) and 'words' in w, 'join() argument is not the result of x.split(): ' + ast.unparse(e))
+                x = w['words']
                 sep_s = ''.join(a[1] for a in sep)
                 if all(a[0] == 'c' for a in x):
                     return self.const(sep_s.join(''.join(a[1] for a in x).split()))
@@ -453,7 +457,11 @@ class SymInterp:
                 need(len(t) <= 1 and all(a[0] == 'c' for a in t), 'format() template is not constant')
                 kw = {}
                 for k in e.keywords:
-                    need(k.arg is not None, 'format(**x)')
+                    if k.arg is None:
+                        d = self.ev(k.value)
+                        need(isinstance(d, dict) and 'dict' in d, 'format(**x) with something other than a dict display')
+                        kw.update(d['dict'])
+                        continue
                     kw[k.arg] = self.strval(k.value)
                 out = []
                 for lit, field, spec, conv in string.Formatter().parse(t[0][1] if t else ''):
@@ -621,6 +629,13 @@ def deprecate_tables() -> dict:
                     kind = 'package'
                 elif isinstance(val, ast.Call) and isinstance(val.func, ast.Attribute) and val.func.attr == 'get_str_value':
                     kind = 'replacement'
+                elif isinstance(val, ast.Call) and isinstance(val.func, ast.Name):
+                    # a same-module helper that RETURNS ...get_str_value(...) on one of its paths
+                    obj = getattr(deprecate, val.func.id, None)
+                    if inspect.isfunction(obj) and obj.__module__ == deprecate.__name__ and any(
+                            isinstance(m, ast.Return) and isinstance(m.value, ast.Call) and isinstance(m.value.func, ast.Attribute)
+                            and m.value.func.attr == 'get_str_value' for m in ast.walk(fn_ast(obj))):
+                        kind = 'replacement'
                 if kind:
                     need(found.get(kind, tgt.id) == tgt.id, 'two variables hold the ' + kind)
                     found[kind] = tgt.id
